@@ -32,6 +32,8 @@ NATIVE_HEAP = {
     'isDoc': lambda o: isinstance(o, odml.doc.BaseDocument),
     'isSL': lambda o: isinstance(o, SmartList),
     'canon_uuid': lambda s: isinstance(s, str) and _is_canon(s),
+    'attr': lambda o, name, cls=None: getattr(o, name, None),
+    'listed': lambda l, x: any(e is x for e in list.__iter__(l)),
 }
 
 
